@@ -7,6 +7,7 @@ import (
 	"sync"
 
 	"cuelang.org/go/cue"
+	"cuelang.org/go/cue/ast"
 	"cuelang.org/go/cue/cuecontext"
 	"github.com/google/uuid"
 )
@@ -139,7 +140,9 @@ func strInStrSlice(s string, ss []string) (isInSlice bool) {
 }
 
 func getSelectorForField(inputValue cue.Value, name string) (selector cue.Selector) {
-	if !(strings.HasPrefix(name, "_") && !strings.Contains(name, "-")) {
+	// a hidden field is addressed by an identifier: anything else (cue.Hid panics on it) can only be a
+	// quoted field
+	if !strings.HasPrefix(name, "_") || !ast.IsValidIdent(name) {
 		return cue.Str(name)
 	}
 
